@@ -21,7 +21,8 @@ EXPLANATION = (
     "1024 * 100. Not decided: the shapes of random identifiers and numbers beyond these tables, RNG behaviour."
     " ADDED LATER: R6 (an expectation argument, not a bound): the capacity divisor of the second-generation token arrays does not exceed a lower bound of the fuzzer's mean token length computed from the weight table, the shortest spellings and the separator probability."
     " ROUND 7: R2-SPELLING also: the Identifier and Builtin arms write the generated identifier verbatim and the generator writes a digit only after the first position."
-    " ROUND 8: R4-ESCAPES reads the `\\\\x` template from whichever formatting macro writes it (format!, write!) and requires the `:02X` / `:02x` padding.")
+    " ROUND 8: R4-ESCAPES reads the `\\\\x` template from whichever formatting macro writes it (format!, write!) and requires the `:02X` / `:02x` padding."
+    " ROUND 10: R2-SPELLING 'no hand-spelled fragment': the NakedDecimal, BitInteger and SuffixedInteger arms push formatted numbers and type keywords only (no literal `_`, sign or prefix).")
 
 FZ = "delta::fuzzer::fill_to_capacity_with_tokens"
 BT = "delta::lexer::BaseToken"
